@@ -125,13 +125,20 @@ static blob mutate_page(hctx* h, blob base, char* desc, size_t dn) {
         off += hs + (size_t)ph.compressed_page_size;
     }
     int which = (int)h_below(h, 17);
-    long eof_delta = 0; int eof_directed = 0;
+    long eof_delta = 0; int eof_directed = 0; int patch_snappy = 0;
     if (which >= 14) {
         /* the page claims a few bytes more than its body holds and carries no checksum: a compressed stream followed by
          * whatever comes next in the file (codecs that know where their stream ends see trailing bytes) */
         static const int extra[] = { 1, 2, 5, 8, 13 };
+        if (cm->codec == CARQUET_COMPRESSION_SNAPPY && ph.compressed_page_size >= 8 && h_chance(h, 1, 2)) {
+            /* a SNAPPY body whose first element is turned into a literal with a 4-byte length of 2^31 and more (tag 0xFC,
+             * length bytes .. .. .. 80/FF), the checksum dropped: the length must be refused, not used */
+            patch_snappy = 1 + (int)h_below(h, 2); ph.has_crc = false;
+            snprintf(desc, dn, "page.snappy-literal-len-2^31.no-crc.%d", patch_snappy);
+        } else {
         ph.compressed_page_size += extra[h_below(h, 5)]; ph.has_crc = false;
         snprintf(desc, dn, "page.compressed+%d.no-crc", (int)(ph.compressed_page_size));
+        }
     }
     else
     if (which >= 12) {
@@ -174,6 +181,12 @@ static blob mutate_page(hctx* h, blob base, char* desc, size_t dn) {
     if (parquet_write_page_header(&ph, &out, NULL) == CARQUET_OK) {
         blob m; m.n = base.n - hs + out.size; m.b = h_alloc(m.n);
         memcpy(m.b, base.b, off); memcpy(m.b + off, out.data, out.size); memcpy(m.b + off + out.size, base.b + off + hs, base.n - off - hs);
+        if (patch_snappy) {
+            uint8_t* body = m.b + off + out.size; size_t k = 0;
+            while (k < 5 && (body[k] & 0x80)) k++;        /* the uncompressed-length preamble */
+            k++;
+            if (k + 5 <= (size_t)ph.compressed_page_size) { body[k] = 0xFC; body[k + 1] = 0; body[k + 2] = 0; body[k + 3] = 0; body[k + 4] = patch_snappy == 1 ? 0x80 : 0xFF; }
+        }
         if (out.size != hs) { char t[32]; snprintf(t, sizeof t, " (shift %+ld)", (long)out.size - (long)hs); strncat(desc, t, dn - strlen(desc) - 1); }
         free(r.b); r = m;
     }
